@@ -261,7 +261,7 @@ def run_tap():
 
 def run_srv():
     """the static tie of the methods of Mailbox / AppNamespace: translate_srv.py regenerates GeneratedSrv.lean from the bodies of
-    Mailbox.open/_touch/_add_message and AppNamespace._add_mailbox/open_mailbox/claim_nameplate/release_nameplate;
+    Mailbox.open/_touch/_add_message/close and AppNamespace._add_mailbox/open_mailbox/claim_nameplate/release_nameplate;
     Wormhole/Tie/Srv.lean proves each equal to the model's function of Core.lean, Tie/SrvStmts.lean ties the statement table"""
     import translate_srv
     spec = json.load(open(os.path.join(LEAN, "theorems.json")))["SRVTIE"]
@@ -281,7 +281,7 @@ def run_srv():
         res["dropped_statements"] = info["dropped"]
         key = _cache_key(translate_srv.OUT, ["PySrv.lean", "Core.lean", "Store.lean", "Sys.lean", "Sql.lean", "GeneratedSql.lean",
                                              "Tie/Srv.lean", "Tie/SrvStmts.lean", "Tie/SrvAll.lean", "Tie/Defs.lean",
-                                             "Tie/MailboxOpen.lean", "Tie/Messages.lean", "Tie/Claim.lean", "Tie/Release.lean"])
+                                             "Tie/MailboxOpen.lean", "Tie/Messages.lean", "Tie/Claim.lean", "Tie/Release.lean", "Tie/MailboxClose.lean"])
         hit = _cache_get("srv", key)
         if hit is not None:
             hit["cached"] = True
